@@ -67,7 +67,7 @@ def nfacts(f, n):
 def run(rep, ctx):
     repo = ctx["repo"]
     _REPO[0] = repo
-    fn = [r"mp::ConstraintKeeper::(ComputeValue|ComputeViolations)", r"mp::ComputeValue", r"mp::ComputeViolation",
+    fn = [r"mp::ConstraintKeeper::(ComputeValue|ComputeViolations)", r"mp::ComputeValue", r"mp::ComputeValue::.*", r"mp::ComputeViolation",
           r"mp::[A-Za-z_0-9]+::ComputeViolation", r"mp::Violation::Check", r"mp::SolutionChecker::.*",
           r"mp::pre::ValuePresolver::PostsolveSolution", r"mp::ViolSummary::.*"]
     d = export_closure(depth=1, roots=r"^mp::(ConstraintKeeper::ComputeViolations|SolutionChecker::CheckVars|Violation::)", unit=U, fn=fn, enum=[r"mp::Context::CtxVal", r"mp::sol::Status"], repo=repo)
@@ -242,23 +242,41 @@ def run(rep, ctx):
                 bad = "condition %s selects argument %s" % (t, sel)
         idx = f.parent.get(co[0]["i"])
     e1.check(len(co) == 1 and bad is None, "ifthen-selector", short_loc(f.loc), "if-then-else: value of argument 1 when the condition holds, of argument 2 otherwise", bad or "shape")
-    for name, stop_truth, stop_val, end_val in (("And", False, 0, 1), ("Or", True, 1, 0)):
+    # and / or (and count, below): evaluated on modelled argument vectors - the evaluator may be a loop with an early return
+    # or a standard algorithm with a lambda
+    def eval_vector(f, truths):
+        """value ComputeValue(con, x) returns when con has len(truths) arguments with the given truth values (x = 1 / 0)"""
+        n_ = len(truths)
+        xs = [1.0 if t else 0.0 for t in truths]
+
+        def atom(t, n, env):
+            if n["k"] in ("CXXOperatorCallExpr", "ArraySubscriptExpr") and (n.get("op", "[]") == "[]"):
+                ks_ = call_args(n) if n["k"] == "CXXOperatorCallExpr" else kids(n)
+                base = strip(ks_[0])
+                if base["k"] == "DeclRefExpr" and f.params and len(f.params) > 1 and base.get("declId") == f.params[1]["declId"]:
+                    return float(xs[int(mi.expr(ks_[1], env))])
+                if "GetArguments()" in render(base):
+                    return int(mi.expr(ks_[1], env))
+            if t.endswith(".GetArguments().size()") or t.endswith("args.size()"):
+                return n_
+            return None
+
+        def seq(text, node, env):
+            return list(range(n_)) if ("GetArguments()" in text or xrender(f, node, True).find("GetArguments()") >= 0) else None
+        mi = MiniInt(F, atom, seq=seq)
+        return mi.call(f, [("obj", None, None), ("obj", None, None)])
+    for name, want_fn in (("And", all), ("Or", any)):
         f = evs[name]
-        loops = [x for x in f.walk() if x["k"] == "CXXForRangeStmt"]
-        ifs = [x for x in f.walk() if x["k"] == "IfStmt"]
-        rets = [x for x in f.walk() if x["k"] == "ReturnStmt"]
-        ok = len(loops) == 1 and len(ifs) == 1 and len(rets) == 2
-        bad = "shape"
-        if ok:
-            c = strip(kids(ifs[0])[0])
-            okc = c["k"] == "BinaryOperator" and fcv(kids(c)[1]) == 0.5 and nt(render(kids(c)[0])) == "x[i]" and c.get("op") == ("<" if not stop_truth else ">=")
-            inner = [x for x in walk(ifs[0]) if x["k"] == "ReturnStmt"]
-            outer = [x for x in rets if x not in inner]
-            okv = len(inner) == 1 and len(outer) == 1 and fcv(kids(inner[0])[0]) == stop_val and fcv(kids(outer[0])[0]) == end_val
-            rng = "GetArguments()" in render(loops[0])
-            ok = okc and okv and rng
-            bad = "condition %s, early value %s, final value %s" % (render(c), cv(kids(inner[0])[0]) if inner else "?", cv(kids(outer[0])[0]) if outer else "?")
-        e1.check(ok, name.lower(), short_loc(f.loc), "%s: %s as soon as one argument is %s, else %s" % (name.lower(), stop_val, "false" if not stop_truth else "true", end_val), bad)
+        bad = None
+        try:
+            for n_ in (1, 2, 3):
+                for truths in _it.product((False, True), repeat=n_):
+                    got = eval_vector(f, truths)
+                    if float(got) != (1.0 if want_fn(truths) else 0.0):
+                        bad = "arguments %s: the evaluator says %s" % (list(truths), got)
+        except AnalysisBroken as e_:
+            raise AnalysisBroken("C07.E1: %s evaluator: %s" % (name, e_))
+        e1.check(bad is None, name.lower(), short_loc(f.loc), "%s: %s of the arguments' truth values (threshold 0.5), all vectors of length 1..3" % (name.lower(), want_fn.__name__), bad)
 
     # ---- G1 ---------------------------------------------------------------------------
     # ---- E2: numeric evaluators name the right function of the right operands ----------------------
@@ -311,9 +329,16 @@ def run(rep, ctx):
     f = evs.get("Count")
     if f is None:
         raise AnalysisBroken("C07.E2: no evaluator for CountConstraint")
-    ifs = [x for x in f.walk() if x["k"] == "IfStmt"]
-    okc = len(ifs) == 1 and nt(render(kids(ifs[0])[0])) in ("x[v]>=0.5",) and any(x["k"] == "UnaryOperator" and x.get("op") == "++" and nt(render(kids(x)[0])) == "result" for x in walk(ifs[0]))
-    e2.check(okc, "count", short_loc(f.loc), "count: number of arguments >= 0.5")
+    badc = None
+    try:
+        for n_ in (1, 2, 3):
+            for truths in _it.product((False, True), repeat=n_):
+                got = eval_vector(f, truths)
+                if float(got) != float(sum(truths)):
+                    badc = "arguments %s: the evaluator says %s" % (list(truths), got)
+    except AnalysisBroken as e_:
+        raise AnalysisBroken("C07.E2: count evaluator: %s" % e_)
+    e2.check(badc is None, "count", short_loc(f.loc), "count: number of arguments >= 0.5 (all vectors of length 1..3)", badc)
 
     g1 = rep.rule("C07.G1", "TABLE", "context cases and the tolerance test", floor=8)
     ctx_vals = F.enum_values("mp::Context::CtxVal") or {}
